@@ -29,6 +29,10 @@ Theorem C10_source_5xx_are_the_exclusions :
   filter (fun e => 500 <=? snd (fst e)) nsqd_http_errs = excluded_5xx.
 Proof. exact source_5xx_literals_are_the_exclusions. Qed.
 Print Assumptions C10_source_5xx_are_the_exclusions.
+(* the call order inside every handler (see proofs/HttpProofs.v http_calls_expected) *)
+Theorem C10_handler_call_order : nsqd_http_calls = expected_http_calls.
+Proof. exact http_calls_expected. Qed.
+Print Assumptions C10_handler_call_order.
 Theorem C10_bool_params :
   nsqd_bool_params = [("true", true); ("1", true); ("false", false); ("0", false)]%string.
 Proof. exact bool_params_expected. Qed.
